@@ -12,7 +12,7 @@ def tally_record(name, counts, expect, outputs=None):
     chi2 = sum((c - m) ** 2 / m for c in counts.values()) + (expect - len(counts)) * m
     dof = expect - 1
     rec = {"op": "dist", "name": name, "samples": M, "support": len(counts), "expect": expect, "dof": dof,
-           "chi2m": int(math.ceil(1000 * chi2)), "slack6m": 1000 * int(math.ceil(6 * math.sqrt(2 * dof))),
+           "chi2m": int(math.ceil(1000 * chi2)), "slack6m": 1000 * int(math.ceil(8 * math.sqrt(2 * dof))),
            "min": min(counts.values()), "max": max(counts.values())}
     if outputs is not None:
         rec["outputs"] = outputs
@@ -28,7 +28,7 @@ class C16(Prop):
     level = "model_checking"
     assumptions = [
         "validity (ValidMap / TableauOK) is judged by TLC on every sampled object, N<=6 (8 in thorough)",
-        "distribution: tallies over fixed seed blocks (derived from VERIF_SEED, so never flaky): every element of the finite sample space must be reached and the chi-square statistic must lie within 6 sigma of its mean; exact for the support (24 signed one-qubit maps, all 720 symplectic classes for N=2), statistical for the frequencies",
+        "distribution: tallies over fixed seed blocks (derived from VERIF_SEED, so never flaky): every element of the finite sample space must be reached and the chi-square statistic must lie within 8 sigma of its mean; exact for the support (24 signed one-qubit maps, all 720 symplectic classes for N=2), statistical for the frequencies",
         "the tally arithmetic (counting identical outputs, chi-square) is done by the harness; the acceptance region is stated in TraceC16.tla",
     ]
     rule = "one record per sampled map / state (validity) and one record per tally (distribution, fairness, resampling)"
